@@ -305,3 +305,197 @@ func TestC13Sweep(t *testing.T) {
 		t.Fatalf("%s", ct.first)
 	}
 }
+
+// ---------------------------------------------------------------------------------------------
+// QR twin histories: two calls at the same level, in DIFFERENT modes, whose data streams have exactly the same
+// number of bits, one of them at a capacity boundary of its mode. Whatever an encoder remembers between calls
+// about "a stream of b bits at level l" (a chosen version, a search start) is right for one mode and wrong for the
+// other, because the character-count field differs. Every boundary content of every (version, level, mode) with
+// each of its existing twins, in one order in shard 0 and in the other order in shard 1 (fresh processes).
+
+type QRHistory struct {
+	Calls []QRCase `json:"calls"`
+}
+
+func qrPayloadBits(mode, n int) int {
+	switch mode {
+	case 1:
+		return 10*(n/3) + []int{0, 4, 7}[n%3]
+	case 2:
+		return 11*(n/2) + 6*(n%2)
+	}
+	return 8 * n
+}
+
+// qrTwinLen: the length in mode whose data stream has exactly bits bits (ok=false if there is none).
+func qrTwinLen(mode, bits int) (int, bool) {
+	var n int
+	switch mode {
+	case 1:
+		n = bits / 10 * 3
+		switch bits % 10 {
+		case 0:
+		case 4:
+			n++
+		case 7:
+			n += 2
+		default:
+			return 0, false
+		}
+	case 2:
+		n = bits / 11 * 2
+		switch bits % 11 {
+		case 0:
+		case 6:
+			n++
+		default:
+			return 0, false
+		}
+	default:
+		if bits%8 != 0 {
+			return 0, false
+		}
+		n = bits / 8
+	}
+	return n, n > 0 && qrPayloadBits(mode, n) == bits
+}
+
+func checkQRHistory(t TB, st *Stats, h QRHistory, decodeToo bool) {
+	noteCase("C13", "qr-twin-history", h)
+	for i, q := range h.Calls {
+		bc, err, pv := qrEncode(q)
+		if pv != nil {
+			failf(t, "C13", "qr-twin-history", h, "call %d: %v", i, pv)
+		}
+		want := qrExpectedMinVersion(q)
+		if err != nil || nilBarcode(bc) {
+			if want != 0 {
+				failf(t, "C13", "qr-twin-history", h, "call %d (%d characters, mode %s, level %c) rejected after the earlier calls although version %d holds it: %v", i, len(q.Content), qrModeNames[q.Mode], "LMQH"[q.Level], want, err)
+			}
+			continue
+		}
+		if st != nil {
+			st.Eval()
+		}
+		if want == 0 {
+			continue // accepted although the reference says unrepresentable: C01/C10 judge that
+		}
+		w := bc.Bounds().Dx()
+		if got := (w - 17) / 4; got != want || (w-17)%4 != 0 {
+			failf(t, "C13", "qr-twin-history", h, "call %d: a %dx%d symbol (version %d) after the earlier calls; the smallest version holding %d characters in mode %s at level %c is %d", i, w, w, got, len(q.Content), qrModeNames[q.Mode], "LMQH"[q.Level], want)
+		}
+		if !decodeToo {
+			continue
+		}
+		m, merr := matrix2D(bc)
+		if merr != nil {
+			failf(t, "C13", "qr-twin-history", h, "call %d: %v", i, merr)
+		}
+		res, derr := ref.DecodeQR(m)
+		if derr != nil {
+			failf(t, "C13", "qr-twin-history", h, "call %d (%d characters, mode %s, level %c, version %d): reference reader: %v", i, len(q.Content), qrModeNames[q.Mode], "LMQH"[q.Level], want, derr)
+		}
+		if string(res.Content) != string(q.Content) {
+			failf(t, "C13", "qr-twin-history", h, "call %d: symbol decodes to other content than was passed in", i)
+		}
+	}
+}
+
+func init() {
+	register("qr-twin-history", func(t TB, h QRHistory) { checkQRHistory(t, nil, h, true) })
+}
+
+// qrBoundaryPairs: every (version, level, mode) capacity and capacity+1 content paired with (a) each cross-mode
+// content of the same stream length in bits and (b) the capacity / capacity+1 contents of the other modes for the
+// same version. subsample: every version up to 14, then every third and 40.
+func qrBoundaryPairs(levels []int, reverse, subsample bool) (hs []QRHistory, classes []string) {
+	mk := func(mode, seed, n, level int) QRCase {
+		c := QRCase{Content: BStr(fillPattern(mode, int64(seed), n)), Level: level, Mode: mode}
+		if mode == 3 && n > 0 {
+			c.Content[0] = 0x80
+		}
+		if mode == 2 && n > 0 {
+			c.Content[0] = '$'
+		}
+		return c
+	}
+	add := func(a, b QRCase, cls string) {
+		h := QRHistory{Calls: []QRCase{a, b}}
+		if reverse {
+			h.Calls = []QRCase{b, a}
+		}
+		if len(hs)%7 == 3 { // some through Auto: same stream, other entry parameter
+			h.Calls[1].Mode = 0
+		}
+		hs = append(hs, h)
+		classes = append(classes, cls)
+	}
+	for _, l := range levels {
+		for v := 1; v <= 40; v++ {
+			if subsample && v > 14 && v%3 != 0 && v != 40 {
+				continue
+			}
+			for modeA := 1; modeA <= 3; modeA++ {
+				capA := qrCapacity(v, l, qrIndicator[modeA])
+				for _, n := range []int{capA, capA + 1} {
+					if n <= 0 || (v == 40 && n > capA) {
+						continue
+					}
+					a := mk(modeA, v*7+l, n, l)
+					for modeB := 1; modeB <= 3; modeB++ {
+						if modeB == modeA {
+							continue
+						}
+						// (a) the other mode's content with exactly the same stream length in bits
+						if m, ok := qrTwinLen(modeB, qrPayloadBits(modeA, n)); ok {
+							add(a, mk(modeB, v*11+l, m, l), "pair with equal stream length in bits, different modes")
+						}
+						// (b) the other mode's contents at the boundaries of the same version
+						if modeB > modeA {
+							capB := qrCapacity(v, l, qrIndicator[modeB])
+							for _, m := range []int{capB, capB + 1} {
+								if m > 0 && !(v == 40 && m > capB) {
+									add(a, mk(modeB, v*13+l, m, l), "pair at the boundaries of one version, different modes")
+								}
+							}
+						}
+					}
+				}
+			}
+		}
+	}
+	return hs, classes
+}
+
+func TestC13QRTwinHistories(t *testing.T) {
+	st := NewStats("C13", "twin-histories")
+	defer st.Flush()
+	ct := &collectTB{}
+	// eight fresh processes: (order A,B | order B,A) x level; strictly sequential inside, so that "the previous
+	// call" is what the list says it is. Quick tier: every version up to 14, then every third and 40.
+	sh := shard()
+	reverse := sh%2 == 1
+	levels := []int{0, 1, 2, 3}
+	if envInt("VERIF_SHARDS", 1) >= 8 {
+		levels = []int{sh / 2 % 4}
+	}
+	hs, classes := qrBoundaryPairs(levels, reverse, !thorough())
+	for i, h := range hs {
+		a, b := h.Calls[0], h.Calls[1]
+		st.NonTrivial(H(classes[i], a.Level, a.Mode, b.Mode, len(a.Content), len(b.Content), reverse))
+		st.Class(classes[i])
+	}
+	for i, h := range hs {
+		if ct.Failed() {
+			break
+		}
+		ct.guard(func() { checkQRHistory(ct, st, h, i%6 == 0) })
+		if i%211 == 1 && len(h.Calls[0].Content) < 60 {
+			st.Sample("boundary history", h)
+		}
+	}
+	st.Set("exhaustive_domain", "every (version, level, mode) capacity and capacity+1 content paired with (a) each cross-mode content of the same stream length in bits, (b) the capacity and capacity+1 contents of the other modes for the same version; both orders, in fresh processes, strictly sequential")
+	if ct.Failed() {
+		t.Fatalf("%s", ct.first)
+	}
+}
